@@ -114,7 +114,8 @@ def digest_rule(chk, ctx, fetched, lookups, limit_name):
         if sha_ok:
             good.extend(ctx.track_call(bb).pos_edges(0))
     ps = parse_sites(ctx, fetched)
-    path = ctx.cfg.witness_path(ps, good, starts=[e[1] for e in some])
+    # every path to the parse either saw "no pinned hashes" or went through the digest-checked fetch
+    path = ctx.cfg.witness_path(ps, set(good) | set(none))
     chk.require(bool(good) and path is None, "R2", f, "digest-checked-when-pinned",
                 "with a pinned digest present, the document can be parsed from a stream that did not come "
                 "from fetch_sha256(pinned digest)", site_of(ctx.body.span), path=ctx.describe_path(path))
